@@ -623,7 +623,10 @@ func (g *g) word(label string, arg bool) string {
 	return skel.Word(ps)
 }
 
-var litPool = []string{"a", "b", "foo", "-l", "1", "é", "a.b", "/dev/null", "*", "a?", "[ab]", "~", "%", "a,b", "+x", "x:y", "日本", "--", "0", "42", "a=b", "@", "^"}
+var litPool = []string{"a", "b", "foo", "-l", "1", "é", "a.b", "/dev/null", "*", "a?", "[ab]", "~", "%", "a,b", "+x", "x:y", "日本", "--", "0", "42", "a=b", "@", "^",
+	// characters that are ordinary for the shell but special for someone: U+0080, a combining mark, a no-break
+	// space, carriage return, form feed, U+FFFD, a character beyond the BMP, a non-ASCII digit, a byte order mark
+	"a\u0080b", "e\u0301x", "\u00a0", "a\rb", "\f", "\uFFFD", "\U0001F600", "x\u0663", "\uFEFFx", "c\r"}
 
 // wordParts generates the parts of a word, appending their text to pieces.
 // first: the word is a command name (no reserved word, no assignment shape,
@@ -669,7 +672,7 @@ func (g *g) wordParts(pieces []Piece, label string, first, value bool) ([]string
 			}
 			fallthrough
 		case 1: // single quotes
-			w := g.pick("sq", "", "a b", "$x", "é", `a"b`, "#", "a\nb", `\`, "*", ";|&", "`c`")
+			w := g.pick("sq", "", "a b", "$x", "é", `a"b`, "#", "a\nb", `\`, "*", ";|&", "`c`", "\uFFFD", "a\r", "e\u0301 \u00a0", "\U0001F600\u0080")
 			if g.bq && strings.ContainsAny(w, "`\\") {
 				w = "q"
 			}
@@ -682,7 +685,7 @@ func (g *g) wordParts(pieces []Piece, label string, first, value bool) ([]string
 			ps = append(ps, sk)
 			g.f("word:dquote")
 		case 3: // backslash
-			c := g.pick("bs", "a", " ", "$", `\`, "'", `"`, "#", ";", "é", "*", "&", "(", "`", "日", "\t", "}")
+			c := g.pick("bs", "a", " ", "$", `\`, "'", `"`, "#", ";", "é", "*", "&", "(", "`", "日", "\t", "}", "\uFFFD", "\r", "\U0001F600", "\u00a0")
 			add(`\` + c)
 			ps = append(ps, skel.Quote(`\`, []string{skel.Lit(c)}))
 			g.f("word:backslash")
@@ -778,7 +781,7 @@ func (g *g) dquote() (string, string) {
 		}
 		switch k {
 		default:
-			w := g.pick("dq_lit", "a b", "é", "'", "#", "*", ";|&", " ", "x=y", "a\nb", "~", "}", "(", "日")
+			w := g.pick("dq_lit", "a b", "é", "'", "#", "*", ";|&", " ", "x=y", "a\nb", "~", "}", "(", "日", "\uFFFD", "\r", "e\u0301", "\u00a0\U0001F600")
 			if openName && startsNameChar(w) {
 				w = " " + w
 			}
@@ -1126,7 +1129,7 @@ func (g *g) heredoc(n string) string {
 		line := ""
 		switch k {
 		default:
-			line = g.pick("hd_plain", "line", "a b  c", "é 日", "#not a comment", "; | & ( )", "'single' \"double\"", "}")
+			line = g.pick("hd_plain", "line", "a b  c", "é 日", "#not a comment", "; | & ( )", "'single' \"double\"", "}", "cr\r", "\uFFFD e\u0301 \u00a0", "\U0001F600\u0080\f")
 		case 1:
 			line = ""
 		case 2:
